@@ -81,6 +81,18 @@ fn candidate(rng: &mut Rng) -> Option<(String, &'static str)> {
     if rng.chance(1, 6) {
         text = corpus::mutate(rng, &text);
         origin = "text_mutant";
+    } else if rng.chance(1, 4) {
+        // layout at the edges of the file: leading blank / comment / indented lines shift every
+        // reported line; a poetic string with trailing blanks on an unterminated last line
+        let lead = *rng.pick(&["\n", "\n\n\n", "   \n\t\n", "(a comment line)\n", "  \t ", "(two\nlines)\n\n"]);
+        text = format!("{}{}", lead, text);
+        if rng.coin() {
+            if !text.ends_with("\n\n") {
+                text.push('\n');
+            }
+            text.push_str(*rng.pick(&["Zed says trailing blanks   ", "Zed says tab\t", "Zed is a wonder   ", "say 1  "]));
+        }
+        origin = "edge_layout";
     }
     Some((text, origin))
 }
